@@ -104,6 +104,12 @@ def bi_list(interp, st, args, kwargs, node):
     v = args[0]
     if isinstance(v, (SymList, GList)):
         return v
+    I_ = _I()
+    if isinstance(v, I_.ObjMethod):
+        v = v.value
+    if I_.is_obj(v):
+        # list(<opaque object>): an opaque object again (an unknown function of it)
+        return z3.Function("obj.list", I_.OBJ_SORT, I_.OBJ_SORT)(v)
     from .filt import FiltList
 
     if isinstance(v, FiltList):
